@@ -347,7 +347,7 @@ def check_C08(ctx):
     b = ctx.build('default')
     ctx.validate(ctx.run_driver(b, 'alias', shards=8, extra='funs=mpz_powm:mpz_powm_ui:mpz_pow_ui:mpz_ui_pow_ui', tier='thorough', timeout=900))
     ctx.validate(ctx.run_driver(b, 'corners_all', shards=8, extra='funs=mpz_powm:mpz_powm_ui:mpz_pow_ui:mpz_ui_pow_ui', timeout=900))      # the same functions on every corner-alphabet operand
-    trace_drivers(ctx, [('c08_powm', 16, 1500), ('c08_pow', 4, 600), ('c08_e1', 4, 600), ('c08_uismall', 8, 900), ('k1_redc', 8, 900), ('k1_inv', 4, 900), ('k1_pow', 8, 900)], pure_drivers=['c08_pow', 'c08_e1', 'k1_redc'])
+    trace_drivers(ctx, [('c08_powm', 16, 1500), ('c08_pow', 4, 600), ('c08_e1', 4, 600), ('c08_uismall', 8, 900), ('c08_zero', 8, 900), ('k1_redc', 8, 900), ('k1_inv', 4, 900), ('k1_pow', 8, 900)], pure_drivers=['c08_pow', 'c08_e1', 'k1_redc'])
     return ctx.finish('model_checking',
         rule='R2: PowmEven = every (b,e,m) in range through the transcribed case analysis at a 2-bit limb. R3/R1: mpz_powm/powm_ui for moduli odd / even with 2-adic valuation 1,63..65,128+ / '
              'powers of two / +-1 / negative / B^n-1 at sizes around the REDC_1/REDC_2/REDC_N/POWM crossovers x exponent lengths at every sliding-window boundary +-1 x bit patterns x 9 base '
